@@ -119,11 +119,15 @@ def gen_desc(rng, passive=True):
     imp = []
     if nmv >= 2 and rng.random() < 0.5:
         a, b = rng.sample(range(1, nmv + 1), 2)
-        asym = rng.random() < 0.4 and not passive
+        # series and shunt asymmetries are drawn independently: none / only x / only r / both  (passive nets: none)
+        acls = "none" if passive else rng.choice(["none", "x", "x", "r", "both"])
         r, x = rng.randint(1, 8) / 64, rng.randint(4, 16) / 64
-        imp.append({"f": a, "t": b, "rft": r, "xft": x, "rtf": r * (2 if asym else 1), "xtf": x * (1.5 if asym else 1),
-                    "gf": rng.choice([0.0, 0.0, 0.015625]), "bf": rng.choice([0.0, -0.03125, 0.0625]),
-                    "gt": rng.choice([0.0, 0.0, 0.03125]), "bt": rng.choice([0.0, 0.0625]),
+        gcls = rng.choice(["none", "g", "b", "both"])
+        gf, bf = rng.choice([0.0, 0.015625]), rng.choice([0.0, -0.03125, 0.0625])
+        imp.append({"f": a, "t": b, "rft": r, "xft": x, "rtf": r * (2 if acls in ("r", "both") else 1),
+                    "xtf": x * (1.5 if acls in ("x", "both") else 1),
+                    "gf": gf, "bf": bf, "gt": gf + (0.03125 if gcls in ("g", "both") else 0.0),
+                    "bt": bf + (0.0625 if gcls in ("b", "both") else 0.0),
                     "sn": rng.choice([10.0, 25.0, 100.0]), "in": rng.random() > 0.1})
     d["imp"] = imp
     d["xward"] = []
